@@ -208,6 +208,15 @@ func raiseMissing(c *Config, field string) Error {
 	return raiseMissingMsg(c, field, "")
 }
 
+// raiseMissingIn reports field as missing in the node elem, the place the
+// walk of a path has reached: the path named is the full path of the setting
+// (not the name of the last step below the configuration the walk started
+// from), the source is the one of the node that does not hold it.
+func raiseMissingIn(elem value, field string) Error {
+	ctx := elem.Context()
+	return raisePathErr(ErrMissing, elem.meta(), "", ctx.pathOf(field, "."))
+}
+
 func raiseMissingMsg(c *Config, field string, message string) Error {
 	return raisePathErr(ErrMissing, c.metadata, message, c.PathOf(field, "."))
 }
